@@ -76,6 +76,12 @@ func checkC01(c *Ctx) {
 	for i := 0; i < c.pick(12, 200); i++ {
 		progs = append(progs, pkgVarProgram(r, fmt.Sprintf("c01-pkgvar-%d", i)))
 	}
+	// range loops that change the ranged slice, literals evaluated repeatedly (families of C11), and functions whose locals
+	// land in the stack cells an earlier call used for values of other types
+	progs = append(progs, c11RangePrograms(r, c.pick(30, 400))...)
+	for i := 0; i < c.pick(10, 100); i++ {
+		progs = append(progs, staleSlotProgram(r, fmt.Sprintf("c01-slots-%d", i)))
+	}
 	b := runMiniGoSpec(c, progs, 8, "c01")
 	nb := 0
 	for _, p := range progs {
